@@ -10,16 +10,16 @@ import (
 
 // removeWhitespace removes all whitespace characters from input.
 func removeWhitespace(data string) (string, bool, error) {
-	changed := false
 	transformedData := strings.Map(func(r rune) rune {
 		if unicode.IsSpace(r) {
 			// if the character is a space, drop it
-			changed = true
 			return -1
 		}
 		// else keep it in the string
 		return r
 	}, data)
 
-	return transformedData, changed, nil
+	// strings.Map re-encodes invalid UTF-8 bytes as U+FFFD, so the output may differ
+	// from the input even when no whitespace was dropped.
+	return transformedData, data != transformedData, nil
 }
